@@ -143,6 +143,9 @@ func (p *c12PPPoE) checkpointSync(i int) {
 		p.e.log.add("CKSERR")
 	}
 }
+func (p *c12PPPoE) v4of(i int) net.IP                     { return nil }
+func (p *c12PPPoE) bind4(i int, a net.IP, lease int) bool { return false } // IPCP assigns at bring-up; no such path
+
 func (p *c12PPPoE) release(i int) {
 	p.c.handleSubscriberTerminate(events.Event{Data: &events.SubscriberTerminateEvent{SessionID: c12SessID(i), Reason: "c12"}})
 }
